@@ -261,6 +261,19 @@ def run_case(case, seed):
                 for q_ in range(len(ref_)):
                     fa, fb = dn(s9_[q_]).reshape(-1) @ P / 1e-9, dn(ref_[q_]).reshape(-1) @ P
                     r.close(key + ':tiny-units:fitted-values', fa, fb, 1e-6, 'y scaled by 1e-9, row %d' % q_)
+        # the same features in other units: every basis function scaled so that the transformed data are of magnitude ~3e-10; rcond
+        # is a RELATIVE cut-off, so the fitted values are the same
+        npm_ = len(basis)
+        al_ = (3e-10) ** (1.0 / npm_)
+        basis_u = [[(lambda f_: (lambda t_: al_ * f_(t_)))(f_) for f_ in mode_] for mode_ in basis]
+        with r.op(key + ':feature-units:call'):
+            with quiet():
+                r10_ = reg.arr(x, y, basis, guess, repeats=2, rcond=1e-10, progress=False)
+                u10_ = reg.arr(x, y, basis_u, guess, repeats=2, rcond=1e-10, progress=False)
+            if isinstance(u10_, list) and len(u10_) == len(r10_) and all(meta_problem(t_) is None for t_ in u10_):
+                for q_ in range(len(r10_)):
+                    fa, fb = dn(u10_[q_]).reshape(-1) @ P * 3e-10, dn(r10_[q_]).reshape(-1) @ P
+                    r.close(key + ':feature-units:fitted-values', fa, fb, 1e-6, 'features scaled to magnitude 3e-10, row %d' % q_)
         r.true(key + ':guess-unchanged', unchanged(guess, sG), 'initial guess modified')
         r.true(key + ':data-unchanged', np.array_equal(x, x0) and np.array_equal(y, y0))
     return r
